@@ -22,6 +22,9 @@ ASSUME Clauses(Obs("apply_hostile", "EXC", FALSE, FALSE, TRUE)) = {"C24.delivere
 ASSUME Clauses(Obs("apply_hostile", "DATA", TRUE, FALSE, TRUE)) = {"C24.atomic"}
 ASSUME Clauses(Obs("fetch_hostile", "EXC", FALSE, FALSE, TRUE)) = {"C24.delivered"}
 ASSUME Clauses(Obs("fetch_hostile", "BROKEN", FALSE, FALSE, FALSE)) = {"C24.delivered", "C24.alive"}
+ASSUME Clauses(Obs("apply_wire", "EXC", FALSE, FALSE, TRUE)) = {}
+ASSUME Clauses(Obs("apply_wire", "DATA", TRUE, TRUE, TRUE)) = {}
+ASSUME Clauses(Obs("apply_wire", "EXC", TRUE, FALSE, TRUE)) = {"C24.atomic"}
 ASSUME Clauses(Obs("apply_bad", "EXC", FALSE, FALSE, TRUE)) = {}
 ASSUME Clauses(Obs("apply_bad", "EXC", TRUE, FALSE, TRUE)) = {"C24.atomic"}
 ASSUME Clauses(Obs("apply_bad", "DATA", FALSE, FALSE, TRUE)) = {"C24.conformance"}
